@@ -37,36 +37,27 @@ Lemma ghost_at_from : forall os i n, ghost_at os i n = ghost_from init ghost0 os
 Proof. reflexivity. Qed.
 
 Lemma pos_inv : forall pw os s g,
-  Inv pw s g -> Shape pw s -> wf_run s os = true -> (pw = true -> existsb is_api_ckpt os = false) ->
-  forall i n, Inv pw (at_from s os i n) (ghost_from s g os i n).
+  Inv pw s g -> Shape pw s -> wf_run s os = true ->
+  forall i n, InvPos pw (at_from s os i n) (ghost_from s g os i n).
 Proof.
-  induction os as [| o r IH]; intros s g HI HS WF NA i n.
-  - unfold at_from, ghost_from. destruct i; cbn; exact HI.
+  induction os as [| o r IH]; intros s g HI HS WF i n.
+  - unfold at_from, ghost_from. destruct i; cbn; apply Inv_InvPos; exact HI.
   - cbn [wf_run] in WF. apply andb_true_iff in WF. destruct WF as [W1 W2].
-    assert (NA1 : pw = true -> is_api_ckpt o = false).
-    { intros P. specialize (NA P). cbn in NA. apply orb_false_iff in NA. tauto. }
-    assert (NA2 : pw = true -> existsb is_api_ckpt r = false).
-    { intros P. specialize (NA P). cbn in NA. apply orb_false_iff in NA. tauto. }
-    destruct (op_inv pw s g o HI HS W1 NA1) as [IA SH].
+    destruct (op_inv pw s g o HI HS W1) as [IA [IE SH]].
     destruct i as [| i].
     + unfold at_from, ghost_from. cbn [firstn run fold_left nth_error ghost_run]. exact (IA n).
     + unfold at_from, ghost_from. cbn [firstn run fold_left nth_error ghost_run].
-      apply (IH (step s o) (ghost_evs s g (events s o))); [| exact SH | exact W2 | exact NA2].
-      apply Inv_all_end. exact IA.
+      apply (IH (step s o) (ghost_evs s g (events s o))); [exact IE | exact SH | exact W2].
 Qed.
 
 Lemma run_shape : forall pw os s g,
-  Inv pw s g -> Shape pw s -> wf_run s os = true -> (pw = true -> existsb is_api_ckpt os = false) ->
+  Inv pw s g -> Shape pw s -> wf_run s os = true ->
   Shape pw (run s os) /\ Inv pw (run s os) (ghost_run s g os).
 Proof.
-  induction os as [| o r IH]; intros s g HI HS WF NA; [split; assumption |].
+  induction os as [| o r IH]; intros s g HI HS WF; [split; assumption |].
   cbn [wf_run] in WF. apply andb_true_iff in WF. destruct WF as [W1 W2].
-  assert (NA1 : pw = true -> is_api_ckpt o = false).
-  { intros P. specialize (NA P). cbn in NA. apply orb_false_iff in NA. tauto. }
-  assert (NA2 : pw = true -> existsb is_api_ckpt r = false).
-  { intros P. specialize (NA P). cbn in NA. apply orb_false_iff in NA. tauto. }
-  destruct (op_inv pw s g o HI HS W1 NA1) as [IA SH].
-  cbn [run fold_left ghost_run]. apply IH; [apply Inv_all_end; exact IA | exact SH | exact W2 | exact NA2].
+  destruct (op_inv pw s g o HI HS W1) as [IA [IE SH]].
+  cbn [run fold_left ghost_run]. apply IH; [exact IE | exact SH | exact W2].
 Qed.
 
 (* prefixes of a workload *)
@@ -98,18 +89,19 @@ Lemma kill_quiet_exact_l : forall os, wf_run init os = true ->
   forall k, r_pages (recover Kill (at_pos os i n)) k = vol (at_pos os i n) k.
 Proof.
   intros os WF i n Q k. rewrite at_pos_from in *.
-  destruct (pos_inv false os init ghost0 (Inv_init false) (Shape_init false) WF (fun P => match Bool.diff_false_true P with end) i n) as [HK _].
+  destruct (pos_inv false os init ghost0 (Inv_init false) (Shape_init false) WF i n) as [HK _].
   destruct (quiet_fields _ Q) as [Hd Hb].
   exact (kill_exact _ HK Hd Hb k).
 Qed.
 
 Lemma ack_quiet_l : forall os, wf_run init os = true ->
-  forall i, in_txn (run init (firstn i os)) = false -> quiet (run init (firstn i os)) = true.
+  forall i, in_txn (run init (firstn i os)) = false ->
+  quiet (run init (firstn i os)) = true /\ cur_du (run init (firstn i os)) = cur_fl (run init (firstn i os)).
 Proof.
   intros os WF i T.
-  destruct (run_shape false (firstn i os) init ghost0 (Inv_init false) (Shape_init false) (wf_run_firstn _ _ _ WF)
-              (fun P => match Bool.diff_false_true P with end)) as [[Hb [_ [_ [Hd _]]]] _].
-  unfold quiet. rewrite (Hd T), Hb. reflexivity.
+  destruct (run_shape true (firstn i os) init ghost0 (Inv_init true) (Shape_init true) (wf_run_firstn _ _ _ WF))
+    as [[Hb [_ [_ [Hd Hc]]]] _].
+  split; [unfold quiet; rewrite (Hd T), Hb; reflexivity | exact (Hc eq_refl)].
 Qed.
 
 Lemma ack_durable_kill_l : forall os, wf_run init os = true ->
@@ -117,43 +109,39 @@ Lemma ack_durable_kill_l : forall os, wf_run init os = true ->
   forall k, r_pages (recover Kill (run init (firstn i os))) k = vol (run init (firstn i os)) k.
 Proof.
   intros os WF i T k.
-  destruct (run_shape false (firstn i os) init ghost0 (Inv_init false) (Shape_init false) (wf_run_firstn _ _ _ WF)
-              (fun P => match Bool.diff_false_true P with end)) as [[Hb [_ [_ [Hd _]]]] [HK _]].
+  destruct (run_shape false (firstn i os) init ghost0 (Inv_init false) (Shape_init false) (wf_run_firstn _ _ _ WF))
+    as [[Hb [_ [_ [Hd _]]]] [HK _]].
   exact (kill_exact _ HK (Hd T) Hb k).
 Qed.
 
 (* ------------------------------------------------------------------ power loss *)
 Lemma power_view_l : forall os, wf_run init os = true ->
-  forall i n, existsb is_api_ckpt (firstn (S i) os) = false ->
-  forall k, kmem k (g_unl (ghost_at os i n)) = false ->
+  forall i n k, kmem k (g_unl (ghost_at os i n)) = false ->
   r_pages (recover Power (at_pos os i n)) k = g_view (ghost_at os i n) k.
 Proof.
-  intros os WF i n NA k U. rewrite at_pos_from, ghost_at_from in *.
-  rewrite <- at_from_prefix, <- ghost_from_prefix in *.
-  destruct (pos_inv true (firstn (S i) os) init ghost0 (Inv_init true) (Shape_init true) (wf_run_firstn _ _ _ WF) (fun _ => NA) i n) as [_ HP].
-  apply (power_view_eq _ _ (HP eq_refl)). apply kmem_false. exact U.
+  intros os WF i n k U. rewrite at_pos_from, ghost_at_from in *.
+  destruct (pos_inv true os init ghost0 (Inv_init true) (Shape_init true) WF i n) as [_ HP].
+  destruct (HP eq_refl) as [P1 _]. apply P1. apply kmem_false. exact U.
 Qed.
 
 Lemma power_quiet_exact_l : forall os, wf_run init os = true ->
-  forall i n, existsb is_api_ckpt (firstn (S i) os) = false ->
-  quiet (at_pos os i n) = true -> cur_du (at_pos os i n) = cur_fl (at_pos os i n) ->
+  forall i n, quiet (at_pos os i n) = true -> cur_du (at_pos os i n) = cur_fl (at_pos os i n) ->
   forall k, kmem k (g_unl (ghost_at os i n)) = false ->
   r_pages (recover Power (at_pos os i n)) k = vol (at_pos os i n) k.
 Proof.
-  intros os WF i n NA Q C k U. rewrite at_pos_from, ghost_at_from in *.
-  rewrite <- at_from_prefix, <- ghost_from_prefix in *.
-  destruct (pos_inv true (firstn (S i) os) init ghost0 (Inv_init true) (Shape_init true) (wf_run_firstn _ _ _ WF) (fun _ => NA) i n) as [_ HP].
-  destruct (quiet_fields _ Q) as [Hd Hb].
-  apply (power_exact _ _ (HP eq_refl) Hd Hb C). apply kmem_false. exact U.
+  intros os WF i n Q C k U. rewrite at_pos_from, ghost_at_from in *.
+  destruct (pos_inv true os init ghost0 (Inv_init true) (Shape_init true) WF i n) as [_ HP].
+  destruct (HP eq_refl) as [_ P2]. destruct (quiet_fields _ Q) as [Hd Hb].
+  apply (power_exact _ _ (P2 C) Hd Hb C). apply kmem_false. exact U.
 Qed.
 
 Lemma ack_durable_power_l : forall os, wf_run init os = true ->
-  forall i, existsb is_api_ckpt (firstn i os) = false -> in_txn (run init (firstn i os)) = false ->
+  forall i, in_txn (run init (firstn i os)) = false ->
   forall k, kmem k (g_unl (ghost_run init ghost0 (firstn i os))) = false ->
   r_pages (recover Power (run init (firstn i os))) k = vol (run init (firstn i os)) k.
 Proof.
-  intros os WF i NA T k U.
-  destruct (run_shape true (firstn i os) init ghost0 (Inv_init true) (Shape_init true) (wf_run_firstn _ _ _ WF) (fun _ => NA))
+  intros os WF i T k U.
+  destruct (run_shape true (firstn i os) init ghost0 (Inv_init true) (Shape_init true) (wf_run_firstn _ _ _ WF))
     as [[Hb [_ [_ [Hd Hc]]]] [_ HP]].
   apply (power_exact _ _ (HP eq_refl) (Hd T) Hb (Hc eq_refl)). apply kmem_false. exact U.
 Qed.
